@@ -148,7 +148,7 @@ func runVerify(pats []string, verbose bool) int {
 		}
 		reps = append(reps, s.verifyFunc("DBG", s.DB.ByKey[k]))
 	}
-	dir := filepath.Join(verifDir, "out", "smt", "DBG")
+	dir := filepath.Join(outDir(), "smt", "DBG")
 	os.RemoveAll(dir)
 	os.MkdirAll(dir, 0o755)
 	SolveAll(dir, reps, 10, false)
